@@ -5,6 +5,7 @@ package evid
 import (
 	"encoding/json"
 	"fmt"
+	"io"
 	"os"
 	"path/filepath"
 	"sort"
@@ -12,6 +13,9 @@ import (
 	"sync"
 	"time"
 )
+
+// Out is where verdict lines go (the library itself prints diagnostics to os.Stdout, which main silences).
+var Out io.Writer = os.Stdout
 
 func Root() string {
 	if r := os.Getenv("VERIF_ROOT"); r != "" {
@@ -234,7 +238,7 @@ func (r *Run) Finish() int {
 	}
 	sort.Strings(knownWhats)
 	for _, w := range knownWhats {
-		fmt.Printf("KNOWN-FINDING: property=%s %s (seen %d times this run)\n", r.Prop, w, r.KnownHits[w])
+		fmt.Fprintf(Out, "KNOWN-FINDING: property=%s %s (seen %d times this run)\n", r.Prop, w, r.KnownHits[w])
 	}
 
 	for i, v := range r.Violations {
@@ -242,8 +246,8 @@ func (r *Run) Finish() int {
 		b, _ := json.MarshalIndent(map[string]any{"property": v.Property, "signature": v.Signature, "detail": v.Detail,
 			"message": v.Message, "witness": v.Witness, "seed": r.Seed, "tier": r.Tier}, "", " ")
 		_ = os.WriteFile(p, b, 0o644)
-		fmt.Printf("VIOLATION property=%s replay=%s\n", r.Prop, p)
-		fmt.Printf("  [%s] %s\n", v.Signature, strings.ReplaceAll(v.Message, "\n", "\n  "))
+		fmt.Fprintf(Out, "VIOLATION property=%s replay=%s\n", r.Prop, p)
+		fmt.Fprintf(Out, "  [%s] %s\n", v.Signature, strings.ReplaceAll(v.Message, "\n", "\n  "))
 	}
 
 	cov := map[string]any{
@@ -289,7 +293,7 @@ func (r *Run) Finish() int {
 	} else if r.Evaluations == 0 || len(r.Distinct) < 2 {
 		verdict, code = "BROKEN CHECK: observed nothing", 2
 	}
-	fmt.Printf("%s %s seed=%d: %s; evaluations=%d distinct_nontrivial=%d inconclusive=%d wall=%.1fs\n",
+	fmt.Fprintf(Out, "%s %s seed=%d: %s; evaluations=%d distinct_nontrivial=%d inconclusive=%d wall=%.1fs\n",
 		r.Prop, r.Tier, r.Seed, verdict, r.Evaluations, len(r.Distinct), r.Counters["inconclusive"], wall)
 	var ks []string
 	for k := range r.Counters {
@@ -297,7 +301,7 @@ func (r *Run) Finish() int {
 	}
 	sort.Strings(ks)
 	for _, k := range ks {
-		fmt.Printf("  %-38s %d\n", k, r.Counters[k])
+		fmt.Fprintf(Out, "  %-38s %d\n", k, r.Counters[k])
 	}
 	return code
 }
